@@ -12,7 +12,7 @@ CONSTANTS GenDepth,      \* length of the emitted histories
           GenMany,       \* number of (randomly chosen) multi-element Set calls offered per state
           GenPick        \* 0: every peer / id / head is offered (exhaustive); k > 0: random subsets (simulation)
 VARIABLE hist
-gvars == <<idx, th, hist>>
+gvars == <<idx, hist>>
 
 ASSUME EmitReset
 
@@ -62,12 +62,11 @@ GenSpec == GenInit /\ [][GenNext]_gvars
 
 \* every pair of contents, each side filled in one Set call (two-step histories, no further steps)
 AllContsG == [Ids -> 0..MaxHead]
-PairInit == /\ th \in THs
-            /\ \E cl, cr \in AllContsG :
+PairInit == \E par \in [Peers -> THs \X LGs] : \E cl, cr \in AllContsG :
                  LET sl == SeqOfSet(Els(cl, <<>>))
                      sr == SeqOfSet(Els(cr, <<>>))
                  IN  /\ hist = <<Op("SetMany", "L", sl, ""), Op("SetMany", "R", sr, "")>>
-                     /\ idx = [p \in Peers |-> IF p = "L" THEN DoSet(NewIndex, sl, TRUE) ELSE DoSet(NewIndex, sr, TRUE)]
+                     /\ idx = [p \in Peers |-> DoSet(NewIndex(par[p][1], par[p][2]), IF p = "L" THEN sl ELSE sr, TRUE)]
 PairSpec == PairInit /\ [][FALSE]_gvars
 
 Apply(ix, o) ==
@@ -84,9 +83,10 @@ Annot(ix, h) ==
                 st |-> Proj(ix1[o.peer]), diff |-> DiffRec(ix1)]>> \o Annot(ix1, Tail(h))
 
 Behaviour == [spec |-> "Ldiff",
-              cfg |-> [df |-> DF, d |-> D, th |-> th, ids |-> [i \in Ids |-> IdPath[i]],
+              cfg |-> [df |-> DF, d |-> D, ids |-> [i \in Ids |-> IdPath[i]],
+                       par |-> [p \in Peers |-> [th |-> idx[p].th, lg |-> idx[p].lg]],   \* each index's own tuning
                        peers |-> Peers, legacy |-> Legacy,
                        fix |-> [set |-> FIX_SET_COUNT, merge |-> FIX_MERGE_UP, nil |-> FIX_NIL_HASH]],
-              steps |-> Annot([p \in Peers |-> NewIndex], hist)]
+              steps |-> Annot([p \in Peers |-> NewIndex(idx[p].th, idx[p].lg)], hist)]
 Emit == EmitWhen(Len(hist) = GenDepth, Behaviour)
 =============================================================================
